@@ -272,12 +272,19 @@ def coerce_default_value(
     # variable signatures that reuse this function for fragment arguments.)
     default_input = input_value.default
     if default_input is not None:
+        type_ = input_value.type
         coerced_value = default_input._memoized_coerced_value  # noqa: SLF001
-        if coerced_value is Undefined:
+        # The memoized value is only valid for the type it was coerced for, since
+        # a default input object can be shared by arguments or input fields of
+        # different types and by the types of an extended schema.
+        if (
+            coerced_value is Undefined
+            or default_input._memoized_type is not type_  # noqa: SLF001
+        ):
             coerced_value = (
-                coerce_input_literal(default_input.literal, input_value.type)
+                coerce_input_literal(default_input.literal, type_)
                 if default_input.literal is not None
-                else coerce_input_value(default_input.value, input_value.type)
+                else coerce_input_value(default_input.value, type_)
             )
             if coerced_value is Undefined:
                 found = (
@@ -291,6 +298,7 @@ def coerce_default_value(
                 )
                 raise TypeError(msg)
             default_input._memoized_coerced_value = coerced_value  # noqa: SLF001
+            default_input._memoized_type = type_  # noqa: SLF001
         return coerced_value
 
     # The deprecated internal default value is used as is.
